@@ -29,9 +29,9 @@ import (
 )
 
 var engines = map[string]eng.Engine{
-	"conc":  conc.Engine{},
-	"chain": chain.Engine{},
-	"rw":    rw.Engine{},
+	"conc":     conc.Engine{},
+	"chain":    chain.Engine{},
+	"rw":       rw.Engine{},
 	"recovery": recovery.Engine{},
 	"static":   static.Engine{},
 }
@@ -56,27 +56,27 @@ type ReplayFile struct {
 
 // Summary is what a batch hands to the controller.
 type Summary struct {
-	Engine      string         `json:"engine"`
-	Race        bool           `json:"race"`
-	Evaluations int            `json:"evaluations"`
-	Runs        int            `json:"runs"`
-	Nontrivial  int            `json:"nontrivial"`
-	Requests    int            `json:"requests"`
-	Steps       int            `json:"steps"`
-	Ticks       int64          `json:"ticks"`
-	Switches    int            `json:"switches"`
-	Blocked     int            `json:"blocked_handovers"`
-	Faults      map[string]int `json:"faults"`
-	Sites       map[string]int `json:"sites"`
-	Probes      map[string]int `json:"probes"`
-	SwitchPairs map[string]int `json:"switch_pairs"`
-	Violations  []VioRef       `json:"violations"`
-	Known       map[string]int `json:"known"`
-	Samples     []any          `json:"samples"`
-	WallS       float64        `json:"wall_s"`
-	FirstIndex  uint64         `json:"first_index"`
-	LastIndex   uint64         `json:"last_index"`
-	DistinctRule string        `json:"distinct_rule"`
+	Engine       string         `json:"engine"`
+	Race         bool           `json:"race"`
+	Evaluations  int            `json:"evaluations"`
+	Runs         int            `json:"runs"`
+	Nontrivial   int            `json:"nontrivial"`
+	Requests     int            `json:"requests"`
+	Steps        int            `json:"steps"`
+	Ticks        int64          `json:"ticks"`
+	Switches     int            `json:"switches"`
+	Blocked      int            `json:"blocked_handovers"`
+	Faults       map[string]int `json:"faults"`
+	Sites        map[string]int `json:"sites"`
+	Probes       map[string]int `json:"probes"`
+	SwitchPairs  map[string]int `json:"switch_pairs"`
+	Violations   []VioRef       `json:"violations"`
+	Known        map[string]int `json:"known"`
+	Samples      []any          `json:"samples"`
+	WallS        float64        `json:"wall_s"`
+	FirstIndex   uint64         `json:"first_index"`
+	LastIndex    uint64         `json:"last_index"`
+	DistinctRule string         `json:"distinct_rule"`
 }
 
 // VioRef points at a replay file.
